@@ -118,7 +118,7 @@ DEFAULT_WEIGHTS = {
     "delete_coll": 0.7, "mkcol": 1.5, "mkcalendar": 1.5, "proppatch": 3, "get": 1.5, "get_cond": 1,
     "propfind": 1.5, "multiget": 1.5, "query": 1, "sync": 1, "put_invalid": 2, "put_badpath": 1,
     "restart": 1.2, "evict": 1.5, "clock": 1, "reupload": 1, "put_same": 1.5, "put_revert": 1,
-    "delete_missing": 1, "put_uidclash": 1.5,
+    "delete_missing": 1, "put_uidclash": 1.5, "put_cut": 0.8,
 }
 
 PROP_WEIGHTS = {
@@ -515,6 +515,9 @@ class HistRun:
                 if self.cfg.get("faults", True) and self.cfg.get("frontend") == "aiohttp" and op["op"] in ("put", "post", "proppatch", "report", "propfind", "mkcol", "mkcalendar") and self.frng.random() < 0.3:
                     n = self.frng.randint(1, 4)
                     op["chunks"] = [self.frng.randint(1, 200) for _ in range(n)]
+                if self.cfg.get("io_faults") and op["op"] in ("get", "head", "propfind", "report") and self.io_armed < 3 and self.frng.random() < 0.15:
+                    op["read_fault"] = {"after": self.frng.randint(1, 30), "errno": self.frng.choice(["EIO", "EMFILE"])}
+                    self.io_armed += 1
                 if self.cfg.get("io_faults") and op["op"] in ("put", "post", "delete", "proppatch", "reupload") and self.io_armed < 2 and self.frng.random() < 0.25:
                     op["fault"] = {"after": self.frng.randint(1, 45), "errno": self.frng.choice(["ENOSPC", "ENOSPC", "EIO"])}
                     self.io_armed += 1
@@ -749,6 +752,17 @@ class HistRun:
             if not name.endswith(ext):
                 return None
             return {"op": "put", "coll": c.path, "name": name, "body": b2s(body), "ctype": ct, "invalid": cls}
+        if k == "put_cut":
+            if self.cfg.get("frontend") != "aiohttp" or not self.cfg.get("faults", True):
+                return None
+            pm = self.pick_member()
+            c = self.pick_coll()
+            if pm is not None and r.random() < 0.6:
+                c, name = pm
+            else:
+                name = self.new_name(c)
+            body, ct = self.body_for(name)
+            return {"op": "put_cut", "coll": c.path, "name": name, "body": b2s(body), "ctype": ct, "keep": r.choice([0.0, 0.3, 0.6, 0.95])}
         if k == "put_badpath":
             c = self.pick_coll()
             name = self.new_name(c)
@@ -923,7 +937,21 @@ class HistRun:
 
             FS.err_at = {FS.mut_seq + fault["after"]: getattr(_errno, fault["errno"])}
             FS.err_fired = []
+        rfault = op.get("read_fault")
+        if rfault:
+            import errno as _errno
+
+            FS.read_err_at = {FS.ev_seq + rfault["after"]: getattr(_errno, rfault["errno"])}
+            FS.err_fired = []
         ctx = handler(op)
+        if rfault:
+            FS.read_err_at = {}
+            if FS.err_fired:
+                self.count("fault.read_error_" + rfault["errno"].lower())
+                if ctx is not None:
+                    ctx["io_fault"] = True
+                    ctx["read_fault"] = True
+                FS.err_fired = []
         if fault:
             FS.err_at = {}
             if FS.err_fired:
@@ -1016,6 +1044,18 @@ class HistRun:
         elif st in (201, 204):
             ctx["unexpected_success"] = True
         return ctx
+
+    def x_put_cut(self, op):
+        """The client connection dies before the request body is complete."""
+        body = s2b(op["body"])
+        rel = op["coll"] + op["name"]
+        head, b = self.world.srv.raw_request("PUT", self.world.target(rel), [("Content-Type", op["ctype"])], body)
+        cut = len(head) + int(len(b) * op.get("keep", 0.5))
+        if cut >= len(head) + len(b):
+            cut = len(head) + len(b) - 1
+        r = self.world.req("PUT", rel, [("Content-Type", op["ctype"])], body, cut_at=cut)
+        self.count("fault.truncated_delivery")
+        return {"status": r.status if r is not None else None, "rel": rel, "coll": op["coll"], "write": True, "resp": r, "truncated": True}
 
     def x_post(self, op):
         coll = op["coll"]
